@@ -45,6 +45,17 @@ type Err struct {
 	Desc string
 }
 type Str struct{ S string }
+
+// ByteStr is a string whose content is a (symbolic) byte view: the result of string(b), of the unsafe casts
+// between []byte and string, or a harness input.
+type ByteStr struct{ B Bytes }
+
+// ElemPtr is &b[i] / unsafe.SliceData(b); SlicePtr is &b for a []byte or string variable b.
+type ElemPtr struct {
+	B   Bytes
+	Idx int
+}
+type SlicePtr struct{ V Value }
 type Object struct {
 	Type   string
 	Fields map[string]Value
@@ -797,6 +808,21 @@ func (m *Machine) evalMulti(fr *frame, e ast.Expr) []Value {
 			if cl, ok := x.X.(*ast.CompositeLit); ok {
 				return []Value{Ptr{m.composite(fr, cl)}}
 			}
+			if ix, ok := ast.Unparen(x.X).(*ast.IndexExpr); ok {
+				if b, ok := m.eval(fr, ix.X).(Bytes); ok {
+					idx := m.constIndex(ix.Index, m.eval(fr, ix.Index))
+					if idx < 0 || idx >= b.Len {
+						m.abort(e, "index out of range [%d] with length %d", idx, b.Len)
+					}
+					return []Value{ElemPtr{B: b, Idx: idx}}
+				}
+			}
+			if id, ok := ast.Unparen(x.X).(*ast.Ident); ok {
+				switch v := m.eval(fr, id).(type) {
+				case Bytes, ByteStr, Str:
+					return []Value{SlicePtr{V: v}}
+				}
+			}
 			m.abort(e, "address-of is not modelled")
 		}
 		m.abort(e, "unary %s is not modelled", x.Op)
@@ -888,7 +914,35 @@ func (m *Machine) evalMulti(fr *frame, e ast.Expr) []Value {
 	case *ast.CompositeLit:
 		return []Value{Ptr{m.composite(fr, x)}} // struct values are handled through their address
 	case *ast.StarExpr:
-		return m.evalMulti(fr, x.X)
+		vs := m.evalMulti(fr, x.X)
+		if len(vs) == 1 {
+			if sp, ok := vs[0].(SlicePtr); ok {
+				// *(*string)(unsafe.Pointer(&b)) and *(*[]byte)(unsafe.Pointer(&s)): the same bytes under the other type
+				t := m.Info.TypeOf(e)
+				isStr := false
+				if bt, ok := t.Underlying().(*types.Basic); ok && bt.Info()&types.IsString != 0 {
+					isStr = true
+				}
+				switch v := sp.V.(type) {
+				case Bytes:
+					if isStr {
+						return []Value{ByteStr{B: Bytes{Buf: v.Buf, Off: v.Off, Len: v.Len, Cap: v.Len}}}
+					}
+					return []Value{v}
+				case ByteStr:
+					if isStr {
+						return []Value{v}
+					}
+					return []Value{v.B}
+				case Str:
+					if isStr {
+						return []Value{v}
+					}
+				}
+				m.abort(e, "dereference of a reinterpreted pointer to %T is not modelled", sp.V)
+			}
+		}
+		return vs
 	case *ast.FuncLit:
 		return []Value{Closure{Lit: x, fr: fr}}
 	case *ast.TypeAssertExpr:
@@ -1114,6 +1168,11 @@ func (m *Machine) call(fr *frame, c *ast.CallExpr) []Value {
 			return m.builtin(fr, c, id.Name)
 		}
 	}
+	if se, ok := c.Fun.(*ast.SelectorExpr); ok {
+		if _, isB := m.Info.Uses[se.Sel].(*types.Builtin); isB {
+			return m.unsafeBuiltin(fr, c, se.Sel.Name)
+		}
+	}
 	var fn *types.Func
 	var recvExpr ast.Expr
 	switch f := c.Fun.(type) {
@@ -1309,6 +1368,33 @@ func (m *Machine) bitLen(n ast.Node, v bitdom.Val) int {
 }
 
 func (m *Machine) convert(n ast.Node, t types.Type, v Value) Value {
+	switch v.(type) {
+	case SlicePtr, ElemPtr:
+		// pointer reinterpretation (unsafe.Pointer(p), (*T)(p)): the pointer itself is unchanged
+		if _, isPtr := t.Underlying().(*types.Pointer); isPtr {
+			return v
+		}
+		if bt, ok := t.Underlying().(*types.Basic); ok && bt.Kind() == types.UnsafePointer {
+			return v
+		}
+	}
+	if bt, ok := t.Underlying().(*types.Basic); ok && bt.Info()&types.IsString != 0 {
+		switch x := v.(type) {
+		case Bytes: // string(b) copies
+			nb := &Buffer{B: append([]bitdom.Val(nil), x.Buf.B[x.Off:x.Off+x.Len]...)}
+			return ByteStr{B: Bytes{Buf: nb, Len: x.Len, Cap: x.Len}}
+		case ByteStr, Str:
+			return v
+		}
+	}
+	if sl, ok := t.Underlying().(*types.Slice); ok {
+		if bt, ok := sl.Elem().Underlying().(*types.Basic); ok && bt.Kind() == types.Uint8 {
+			if x, ok := v.(ByteStr); ok { // []byte(s) copies
+				nb := &Buffer{B: append([]bitdom.Val(nil), x.B.Buf.B[x.B.Off:x.B.Off+x.B.Len]...)}
+				return Bytes{Buf: nb, Len: x.B.Len, Cap: x.B.Len}
+			}
+		}
+	}
 	if w, s, ok := intType(t); ok {
 		switch x := v.(type) {
 		case Int:
@@ -1342,6 +1428,36 @@ func (m *Machine) convert(n ast.Node, t types.Type, v Value) Value {
 	return nil
 }
 
+// unsafeBuiltin models unsafe.String / StringData / Slice / SliceData on byte views.
+func (m *Machine) unsafeBuiltin(fr *frame, c *ast.CallExpr, name string) []Value {
+	switch name {
+	case "SliceData":
+		if b, ok := m.eval(fr, c.Args[0]).(Bytes); ok {
+			return []Value{ElemPtr{B: b, Idx: 0}}
+		}
+	case "StringData":
+		switch s := m.eval(fr, c.Args[0]).(type) {
+		case ByteStr:
+			return []Value{ElemPtr{B: s.B, Idx: 0}}
+		}
+	case "String", "Slice":
+		p, ok := m.eval(fr, c.Args[0]).(ElemPtr)
+		n := m.constIndex(c.Args[1], m.eval(fr, c.Args[1]))
+		if ok {
+			if n < 0 || p.Idx+n > p.B.Cap {
+				m.abort(c, "unsafe.%s of %d bytes from element %d of a view with capacity %d", name, n, p.Idx, p.B.Cap)
+			}
+			view := Bytes{Buf: p.B.Buf, Off: p.B.Off + p.Idx, Len: n, Cap: n}
+			if name == "String" {
+				return []Value{ByteStr{B: view}}
+			}
+			return []Value{view}
+		}
+	}
+	m.abort(c, "unsafe.%s on these operands is not modelled", name)
+	return nil
+}
+
 func (m *Machine) builtin(fr *frame, c *ast.CallExpr, name string) []Value {
 	switch name {
 	case "len", "cap":
@@ -1360,6 +1476,8 @@ func (m *Machine) builtin(fr *frame, c *ast.CallExpr, name string) []Value {
 			}
 		case Str:
 			return []Value{ConstInt(64, true, uint64(len(x.S)))}
+		case ByteStr:
+			return []Value{ConstInt(64, true, uint64(x.B.Len))}
 		}
 		m.abort(c, "%s of %T is not modelled", name, v)
 	case "append":
